@@ -280,9 +280,10 @@ Definition toy_grind (fuel : nat) (c : coin Z) (gf : Z) := grind Z toy_merge_int
    word_i = post_MODE (toy_hash (i :: le8 (toy_hash input))), so that every byte of as_bytes() is live
    (extension coefficients, f128 high half) and the rejection branch of draw is taken often:
      mode 0: plain                     mode 1: 1 of 4 words gets its high 32 bits set (>= M for f64/f62)
-     mode 2: 1 of 8 words -> 2^64-1    mode 3: words -> 2^64-1 unless their low 10 bits are 0 (draw mostly Err) *)
+     mode 2: 1 of 8 words -> 2^64-1    mode 3: words -> 2^64-1 unless their low 10 bits are 0 (draw mostly Err)
+     mode 4: plain, except merge_with_int (below) *)
 Definition wide_post (mode w : Z) : Z :=
-  if mode =? 0 then w
+  if (mode =? 0) || (mode =? 4) then w
   else if mode =? 1 then (if Z.land w 3 =? 3 then Z.lor w 18446744069414584320 else w)
   else if mode =? 2 then (if Z.land w 7 =? 7 then 18446744073709551615 else w)
   else (if Z.land w 1023 =? 0 then w else 18446744073709551615).
@@ -291,7 +292,13 @@ Definition wide_hash (mode : Z) (bytes : list Z) : list Z :=
   map (fun i => wide_post mode (toy_hash (i :: h))) [0; 1; 2; 3].
 Definition wide_dbytes (d : list Z) : list Z := flat_map (to_le_bytes 8) d.
 Definition wide_merge (mode : Z) (a b : list Z) : list Z := wide_hash mode (wide_dbytes a ++ wide_dbytes b).
-Definition wide_merge_int (mode : Z) (s : list Z) (v : Z) : list Z := wide_hash mode (wide_dbytes s ++ to_le_bytes 8 v).
+(* mode 4: merge_with_int(seed, v) is the all-ones digest (inadmissible in every field) for v < T(seed) with
+   T = 998 + seed.word0 mod 5, plain otherwise: the first admissible candidate of a draw sits at counter
+   998..1002, i.e. right at the 1000-try limit of draw (off-by-one changes of the limit are observable). *)
+Definition wide_ones : list Z := [18446744073709551615; 18446744073709551615; 18446744073709551615; 18446744073709551615].
+Definition wide_merge_int (mode : Z) (s : list Z) (v : Z) : list Z :=
+  if (mode =? 4) && (v <? 998 + (hd 0 s) mod 5) then wide_ones
+  else wide_hash mode (wide_dbytes s ++ to_le_bytes 8 v).
 Definition wide_hash_elems (mode : Z) (eb : nat) (elems : list Z) : list Z :=
   wide_hash mode (flat_map (to_le_bytes eb) elems).
 
